@@ -8,12 +8,15 @@ import (
 	"github.com/xanzy/go-gitlab"
 )
 
-// Issues returns a channel with gitlab project issues, ascending order.
-func Issues(ctx context.Context, client *gitlab.Client, pid string, since time.Time) <-chan *gitlab.Issue {
+// Issues returns a channel with gitlab project issues, ascending order, and a channel
+// that gives the error that stopped the listing, if any, once the first one is closed.
+func Issues(ctx context.Context, client *gitlab.Client, pid string, since time.Time) (<-chan *gitlab.Issue, <-chan error) {
 	out := make(chan *gitlab.Issue)
+	errs := make(chan error, 1)
 
 	go func() {
 		defer close(out)
+		defer close(errs)
 
 		opts := gitlab.ListProjectIssuesOptions{
 			UpdatedAfter: &since,
@@ -24,6 +27,7 @@ func Issues(ctx context.Context, client *gitlab.Client, pid string, since time.T
 		for {
 			issues, resp, err := client.Issues.ListProjectIssues(pid, &opts, gitlab.WithContext(ctx))
 			if err != nil {
+				errs <- err
 				return
 			}
 
@@ -39,7 +43,7 @@ func Issues(ctx context.Context, client *gitlab.Client, pid string, since time.T
 		}
 	}()
 
-	return out
+	return out, errs
 }
 
 // Notes returns a channel with note events
